@@ -99,6 +99,8 @@ def gen_case(seed, tier, prop):
                 sid = st["sid"]
                 opts = {"shield": rng.random() < 0.3, "deadline": rng.choice([None, None, None, 0, 0.125, 0.25, 0.5]),
                         "pre": rng.random() < 0.08}
+                if opts["deadline"] is not None and rng.random() < 0.3:
+                    opts["setter"] = True        # the deadline is assigned through the property before the scope is entered
                 out.append(["scope", sid, opts, body(depth + 1, groups, scopes + [sid], budget, tid)])
             elif k == "cancel":
                 cands = list(scopes) + ["G%d" % g for g in groups]
@@ -508,7 +510,11 @@ class SCRun:
         kw = {}
         if opts["deadline"] is not None:
             kw["deadline"] = self.loop.time() + opts["deadline"]
-        sc = CancelScope(shield=opts["shield"], **kw)
+        if opts.get("setter") and kw:
+            sc = CancelScope(shield=opts["shield"])
+            sc.deadline = kw["deadline"]
+        else:
+            sc = CancelScope(shield=opts["shield"], **kw)
         self.scopes[sid] = sc
         self.shield_tl[sid].append((self.seq, opts["shield"]))
         if opts["pre"]:
